@@ -480,8 +480,11 @@ func checkC13(c c13Case) (skip string, err error) {
 		if !ok {
 			return "", fmt.Errorf("%s = %q, %v; want a ParamExpError (%s)", desc, got, gerr, m.Err)
 		}
-		if m.Err == "indicate" && m.ErrMsg != "" && pe.Msg != m.ErrMsg {
-			return "", fmt.Errorf("%s: error message %q, want the expansion of the word %q", desc, pe.Msg, m.ErrMsg)
+		if m.Err == "indicate" && (m.ErrMsg != "" || m.WordUsed) && pe.Msg != m.ErrMsg {
+			return "", fmt.Errorf("%s: error message %q, want the expansion of the word %q (a word that is there, but expands to nothing, is not an omitted word)", desc, pe.Msg, m.ErrMsg)
+		}
+		if m.Err == "indicate" && !m.WordUsed && pe.Msg == "" {
+			return "", fmt.Errorf("%s: no error message, although the word is omitted (a default message is to be given)", desc)
 		}
 		if v, set := env.Get("p"); c.Param == "p" && !c.Set && set {
 			return "", fmt.Errorf("%s returned an error but assigned p=%q", desc, v.Value)
@@ -537,7 +540,77 @@ func oracleSnapshot(w ast.Word) string {
 	return b.String()
 }
 
+// c13RawPos: a positional parameter spelled with leading zeros in a word
+// built by hand, with the 12 positional parameters v1. ... v12.
+type c13RawPos struct {
+	Name    string `json:"name"`
+	Op      string `json:"op"` // "" | #len | :- | - | :+ | + | % | #
+	NoUnset bool   `json:"nounset"`
+}
+
+func checkC13RawPos(c c13RawPos) error {
+	var args []string
+	for i := 1; i <= 12; i++ {
+		args = append(args, fmt.Sprintf("v%d.", i))
+	}
+	env := interp.NewExecEnv("sh", args...)
+	env.Opts = interp.NoGlob
+	if c.NoUnset {
+		env.Opts |= interp.NoUnset
+	}
+	idx, _ := strconv.Atoi(strings.TrimLeft(c.Name, "0"))
+	val, set := "", idx >= 1 && idx <= len(args)
+	if set {
+		val = args[idx-1]
+	}
+	pe := &ast.ParamExp{Braces: true, Name: &ast.Lit{Value: c.Name}}
+	var want []string
+	wantErr := false
+	switch c.Op {
+	case "":
+		want = []string{val}
+		wantErr = !set && c.NoUnset
+	case "#len":
+		pe.Op = "#"
+		want = []string{strconv.Itoa(len([]rune(val)))}
+		wantErr = !set && c.NoUnset
+	case ":-", "-":
+		pe.Op, pe.Word = c.Op, ast.Word{&ast.Lit{Value: "W"}}
+		want = []string{val}
+		if !set {
+			want = []string{"W"}
+		}
+	case ":+", "+":
+		pe.Op, pe.Word = c.Op, ast.Word{&ast.Lit{Value: "W"}}
+		want = []string{""}
+		if set {
+			want = []string{"W"}
+		}
+	case "%":
+		pe.Op, pe.Word = c.Op, ast.Word{&ast.Lit{Value: "."}}
+		want = []string{strings.TrimSuffix(val, ".")}
+		wantErr = !set && c.NoUnset
+	case "#":
+		pe.Op, pe.Word = c.Op, ast.Word{&ast.Lit{Value: "v"}}
+		want = []string{strings.TrimPrefix(val, "v")}
+		wantErr = !set && c.NoUnset
+	default:
+		return fmt.Errorf("harness: unknown operator %q", c.Op)
+	}
+	var got []string
+	var gerr error
+	w := ast.Word{&ast.Quote{Tok: `"`, Value: ast.Word{pe}}}
+	if e := guard(func() error { got, gerr = env.Expand(w, 0); return nil }); e != nil {
+		return fmt.Errorf("Expand of a hand-built \"${%s%s}\" %v", c.Name, c.Op, e)
+	}
+	if wantErr != (gerr != nil) || gerr == nil && !reflect.DeepEqual(got, want) {
+		return fmt.Errorf("Expand of a hand-built \"${%s%s...}\" with 12 positional parameters (v1. ... v12.), nounset=%v: got %q, error %v; want %q, error: %v (the parameter is the one with the decimal number %d)", c.Name, c.Op, c.NoUnset, got, gerr, want, wantErr, idx)
+	}
+	return nil
+}
+
 func init() {
+	reg("C13", "rawpos", checkC13RawPos)
 	reg("C13", "arith", checkC13Arith)
 	reg("C13", "table", func(c c13Case) error {
 		_, err := checkC13(c)
@@ -602,6 +675,9 @@ func TestC13(t *testing.T) {
 		{{"nestsq", "W Q"}, {"nestdq", "l"}},
 		{{"count", ""}},
 		{{"lit", "a b:c"}},
+		// words that are there but expand to nothing
+		{{"dqvar", ""}},
+		{{"var", ""}, {"dqvar", ""}},
 	}
 	patsets := [][]wAtom{
 		nil,
@@ -648,6 +724,27 @@ func TestC13(t *testing.T) {
 			}
 		}
 	}
+	// positional parameters spelled with leading zeros, in words built by hand
+	// (the parser does not accept the spelling): the parameter is the one with
+	// that decimal number
+	if sh == 1%nsh {
+		var n int64
+		for _, name := range []string{"01", "02", "07", "08", "09", "010", "011", "012", "0011", "0012", "013", "00008", "019"} {
+			for _, op := range []string{"", ":-", "-", ":+", "+", "#len", "%", "#"} {
+				for _, nu := range []bool{false, true} {
+					c := c13RawPos{Name: name, Op: op, NoUnset: nu}
+					if err := checkC13RawPos(c); err != nil {
+						fail(t, "C13", "rawpos", c, "%v", err)
+					}
+					n++
+				}
+			}
+		}
+		st.EvalN(n, n)
+		st.ClassN("positional_parameter_spelled_with_leading_zeros", n)
+		st.Note("hand-built ${0N...} for 13 spellings with leading zeros x 8 operators x nounset on/off with 12 positional parameters: the parameter with that decimal number")
+	}
+
 	// positional and special parameters inside arithmetic expansions
 	if sh == 0 {
 		args := []string{"7", "30", "3", "4", "5", "6", "07", "8", "9", "100", "11"}
